@@ -146,6 +146,37 @@ CLAIMS["C11"] = (
     "round-trip are not decided.",
     "effect table over event constructions + must-write / path-condition checks on MIR")
 
+CLAIMS["C13"] = (
+    "decides non-interference and save/restore pairing structurally: the forward def-use slice "
+    "of the instruction budget is only the dispatch loop's range (the counter is unread, all "
+    "handlers run after the pc increment); every save of a continuation also saves pc on all "
+    "paths, only CONT reads it; writers of cont/cont_pc/pc equal reviewed sets; the value stack "
+    "is cleared only under the cannot-continue condition. Equality of total output under "
+    "interruption at every k is not decided.",
+    "forward-slice non-interference + must-write pairing + who-may-write tables on MIR")
+CLAIMS["C15"] = (
+    "partial: decides store discipline (ordered map type and traversals, insert-or-delete on "
+    "entry keyed by the line's own number, inclusive ranges end to end, the bare-DELETE / "
+    "inverted-range / 65529 guards with reviewed comparison operators, defaults chosen by "
+    "presence not value, the two pieces of LIST's range rewriting). That list_line's "
+    "self-rewriting range emits exactly the lines in range for every history is not decided.",
+    "type facts + guard dominance + comparison-operator table on MIR")
+CLAIMS["C17"] = (
+    "decides the INPUT staging protocol structurally: template order, marker below the reversed "
+    "fields, the closing handler pops exactly the four staged entries, caps constants and their "
+    "test, prompt suffix, who may request a redo, unwind to the marker with pc restore, pc "
+    "re-pointing, radix conversion on the unmodified text shared with VAL. Reply parsing over all "
+    "strings is not decided.",
+    "emission-order extraction + push/pop count agreement + who-may-write on MIR")
+CLAIMS["C19"] = (
+    "decides the gate and the column plumbing structurally: the Jump arm's compile-error gate "
+    "and the direct-error stop dominate execution; other entries use addresses cleared on "
+    "recompile; parser columns advance by the character count of each token's listed text and "
+    "Error::column re-bases by the listed prefix; link-time diagnostics take the operand's "
+    "column (keyword for WHILE/WEND) and line_number_for(address). Exact ranges for every "
+    "statement shape are not decided.",
+    "guard dominance + provenance of column operands + unit (char count) checks on MIR")
+
 NOT_APPLICABLE = {}
 
 
